@@ -79,6 +79,26 @@ def execute(darsia, ctx, key):
         J.update_params(dim=2, mass_coeff=1.0, diffusion_coeff=coeff)
         x0 = _data("a")
         return J(x0, rhs=x0 * 2.0, h=1.0)
+    if name in ("JP", "MGP"):  # JP|dim|mass|diff|which : ONE object whose parameters are replaced ONE AT A TIME (update_params with a single
+        # argument - "which" names the one this call passes; whatever else differs from the object's state is passed as well).
+        # The result depends on (dim, mass, diff) only, and equals that of an object constructed with these parameters.
+        want = {"dim": int(op[1]), "mass_coeff": float(op[2]), "diffusion_coeff": float(op[3])}
+        if name not in ctx:
+            ctx[name] = (darsia.Jacobi(maxiter=4, **want) if name == "JP" else
+                         darsia.MG(depth=1, smoother_iterations=2, maxiter=2, **want))
+        else:
+            have = ctx[name + "state"]
+            passed = {k: v for k, v in want.items() if have[k] != v or k == {"dim": "dim", "mass": "mass_coeff", "diff": "diffusion_coeff"}.get(op[4])}
+            if op[4] == "all":
+                passed = dict(want)
+            if passed:
+                ctx[name].update_params(**passed)
+        ctx[name + "state"] = want
+        if name == "JP":
+            x0 = _data("v") if want["dim"] == 3 else _data("a")
+            return ctx[name](x0, rhs=x0 * 2.0, h=1.0)
+        x0 = _data("m")
+        return ctx[name](x0, rhs=x0 * 2.0)
     if name == "H1img":
         img = darsia.Image(_data(op[1]), space_dim=2, dimensions=[1.0, 1.0], scalar=True)
         return darsia.H1_regularization(img, mu=float(op[2])).img
@@ -163,6 +183,8 @@ ALPHABET = {
     "default-array-weights": ["H1A|bool|3", "H1A|float64|4", "H1A|float32|5", "H1A|int|6", "H1|a|1.0|1.0|default"],
     "tvd-initial-guess": ["SBTVDX|0.5", "SBTVDX|0.2"],
     "tvd-array-weights": ["SBTVDA|bool|3", "SBTVDA|float64|4", "SBTVDA|float32|5", "SBTVD|a|0.5|1.0"],
+    "jacobi-single-parameter": ["JP|2|1.0|0.5|all", "JP|3|1.0|0.5|dim", "JP|2|1.0|0.5|dim", "JP|2|2.0|0.5|mass", "JP|2|1.0|0.25|diff", "JP|3|2.0|0.25|all"],
+    "mg-single-parameter": ["MGP|2|1.0|0.5|all", "MGP|2|2.0|0.5|mass", "MGP|2|1.0|0.25|diff", "MGP|2|1.0|0.5|dim"],
     "mg-object": ["MG|1.0|1.0", "MG|1.0|0.1"],
     "mg-heterogeneous": ["MGH|2.0", "MGH|3.0"],
     "mg-direct-shapes": ["MGD|m", "MGD|n", "MGD|o"],
